@@ -234,7 +234,8 @@ def run_watch(prop, tier, replay=None):
         sc = scenarios[rj["t"] - 1]
         p, sig = fa.classify(rj, by_t[rj["t"]], sc["mainnet"])
         # an End line the harness itself did not flag can only be a disagreement between harness and specification
-        if rj["line"]["ev"] == "End" and not rj["line"]["a"]["missing"] and not rj["line"]["a"]["spin"] and not rj["line"]["a"].get("untaken"):
+        if rj["line"]["ev"] == "End" and not rj["line"]["a"]["missing"] and not rj["line"]["a"]["spin"] and not rj["line"]["a"].get("untaken") \
+                and not sc.get("reobsOverlap"):
             raise vlib.Broken("specification expects a message the harness did not wait for (scenario %d, family %s): %s"
                               % (rj["t"], sc.get("family"), json.dumps(rj.get("frontier", [])[:1])[:1500]))
         if prop in p.split("+"):
